@@ -257,7 +257,9 @@ SpaceEqual(m1, m2) == \A j \in 2..Len(m1.body) : m1.body[j].sp = m2.body[j].sp
 
 Frame(r, m, a, i, cnt) == [r |-> r, m |-> m, a |-> a, i |-> i, cnt |-> cnt]
 TokRef == [r |-> "tok", m |-> "", a |-> 0, i |-> 0]
-NullT == [ref |-> [r |-> "null", m |-> "", a |-> 0, i |-> 0], val |-> EofTok]
+(* a held token pointer: ref = where it points, val = the token read there, cp = the holder works on a
+   private copy (expandfunc since fix 4ba409c: cur = *t; expand(&cur)) *)
+NullT == [ref |-> [r |-> "null", m |-> "", a |-> 0, i |-> 0], val |-> EofTok, cp |-> FALSE]
 Fire(m, d) == [m EXCEPT !.fired = @ \cup {d}]
 
 Mem0(names) == [mac |-> [n \in names |-> NoMac], ctx |-> <<>>, md |-> 0, pos |-> 1, nl |-> TRUE, tok |-> EofTok,
@@ -288,7 +290,7 @@ TopNext(m) ==
       v == Stor(m, f)[f.i]
       m1 == [m EXCEPT !.ctx[d].i = @ + 1, !.ctx[d].cnt = @ - 1]
   IN [mem |-> IF v.s = FreedS THEN Fire(m1, "KeywordFreesLit") ELSE m1,
-      t |-> [ref |-> [r |-> f.r, m |-> f.m, a |-> f.a, i |-> f.i], val |-> v]]
+      t |-> [ref |-> [r |-> f.r, m |-> f.m, a |-> f.a, i |-> f.i], val |-> v, cp |-> FALSE]]
 
 (* ctxpush(): note t[0].space = space writes into the pushed storage *)
 SetSp(m, f, space) ==
@@ -355,7 +357,7 @@ NextInto(m, tgt) ==
 RawNext(m) ==
   LET r == CtxNext(m) IN
   IF r.t # NullT THEN r
-  ELSE LET q == NextInto(r.mem, "tok") IN [mem |-> q.mem, t |-> [ref |-> TokRef, val |-> q.v]]
+  ELSE LET q == NextInto(r.mem, "tok") IN [mem |-> q.mem, t |-> [ref |-> TokRef, val |-> q.v, cp |-> FALSE]]
 
 (* peekparen(): pending is a static array that is refilled from index 0 *)
 SetAt(s, j, v) == IF j <= Len(s) THEN [s EXCEPT ![j] = v] ELSE Append(s, v)
@@ -377,13 +379,13 @@ PeekParen(m) ==
 
 (* *t for a held pointer t.  pp.c keeps pointers into the pending array      *)
 (* across a refill (PendingReuse); the alternative is value semantics.       *)
-Deref(m, t) == IF Dev("PendingReuse") /\ t.ref.r = "pend" THEN m.pend[t.ref.i] ELSE t.val
+Deref(m, t) == IF Dev("PendingReuse") /\ t.ref.r = "pend" /\ ~t.cp THEN m.pend[t.ref.i] ELSE t.val
 
 (* t->hide = true.  The write goes to wherever t points; into a macro's own  *)
 (* replacement list it persists across expansions (PaintBody).               *)
 Paint(m, t) ==
   LET t2 == [t EXCEPT !.val.h = TRUE]
-      rf == t.ref
+      rf == IF t.cp THEN NullT.ref ELSE t.ref     \* a private copy is painted, not the storage
       m2 == CASE rf.r = "body" -> IF Dev("PaintBody") THEN [m EXCEPT !.mac[rf.m].body[rf.i].h = TRUE] ELSE m
               [] rf.r = "arg"  -> [m EXCEPT !.mac[rf.m].args[rf.a].toks[rf.i].h = TRUE]
               [] rf.r = "pend" -> [m EXCEPT !.pend[rf.i].h = TRUE]
@@ -395,7 +397,8 @@ Paint(m, t) ==
 (* macrodone() has freed m->arg while a caller of expand() still holds a      *)
 (* pointer into it (the frame was dropped by peekparen's ctxnext)              *)
 UseAfterFree(m, t) ==
-  IF Dev("ArgUseAfterFree") /\ t.ref.r = "arg" /\ ~m.mac[t.ref.m].hide THEN Fire(m, "ArgUseAfterFree")
+  IF t.cp THEN m
+  ELSE IF Dev("ArgUseAfterFree") /\ t.ref.r = "arg" /\ ~m.mac[t.ref.m].hide THEN Fire(m, "ArgUseAfterFree")
   ELSE IF Dev("UndefFreesHeldBody") /\ t.ref.r = "body" /\ ~m.mac[t.ref.m].def THEN Fire(m, "UndefFreesHeldBody")  \* undef() freed m->token
   ELSE m
 (* next(): tok = *t; keyword(&tok) frees tok.lit, which the stored token shares *)
@@ -555,7 +558,7 @@ FuncTok ==
         ELSE LET a2 == [a1 EXCEPT !.paren = IF cnt /\ IsPp(v, "(") THEN @ + 1 ELSE IF cnt /\ IsPp(v, ")") THEN @ - 1 ELSE @,
                                   !.str = IF cnt /\ "STR" \in pf THEN Stringize(@, v) ELSE @]
              IN IF "TOK" \in pf /\ ~(v.k = "nl" /\ ~Dev("ArgNewlineTok")) THEN
-                   /\ stack' = Append(SetTop([a2 EXCEPT !.pc = "aft"]), [Act("expand", "lookup") EXCEPT !.t = t])
+                   /\ stack' = Append(SetTop([a2 EXCEPT !.pc = "aft"]), [Act("expand", "lookup") EXCEPT !.t = [t EXCEPT !.cp = TRUE]])
                    /\ UNCHANGED <<mem, ret, out, status>> /\ Static
                 ELSE LET r == FuncRead(mem) IN
                    IF r.mem.err # "" THEN Fail(r.mem)
